@@ -33,3 +33,6 @@ def run(tier, seed, fold):
     # 2) plain build: what a release user runs; a wrap can only be observed as a wrong value here
     driver.standard_run(SPEC, tier, seed, fold, tag="plain", profile="plain")
     fold.count("build_profiles_exercised", 2)
+    if tier == "thorough":
+        # 3) Miri: undefined behaviour / invalid values / overflow in everything the value API reaches
+        driver.miri_run("C09", "value", seed, fold, procs=12, ops=800)
